@@ -1,11 +1,715 @@
-//! (stub) binding for this area — see DESIGN.md
-use crate::util::Args;
-use anyhow::Result;
+//! Binding of spec/Splitters.tla to ragc_core::splitters (C11).
+//!
+//! The harness only DRIVES the three real entry points (in-memory under dedicated rayon pools,
+//! streaming and first-sample through temporary FASTA files), PROJECTS their results (u64 k-mers ->
+//! symbol sequences, sorted; for large references digests and cardinalities) and, for REPLAY,
+//! COMPARES the projected real result with the model's terminal state.  Every law of C11 is
+//! evaluated by TLC (Trace_Splitters.tla) on the recorded events.
+//!
+//!   replay-splitters --in F [--trace-out T]      behaviours printed by MC_Splitters
+//!   trace-splitters  --seed S --ncases N --minlen A --maxlen B --out T [--from-case I]
+//!   trace-splitters  --big --seed S --ncases N --minlen A --maxlen B --out T [--from-case I]
+use crate::util::{self, Args};
+use anyhow::{anyhow, Result};
+use ragc_core::segment::split_at_splitters_with_size;
+use ragc_core::splitters::{
+    determine_splitters, determine_splitters_streaming, determine_splitters_streaming_first_sample,
+};
+use rand::rngs::StdRng;
+use rand::seq::SliceRandom;
+use rand::Rng;
+use serde_json::{json, Value};
+use std::collections::{BTreeSet, HashMap};
+use std::io::{BufRead, Write};
+use std::path::Path;
 
-/// Returns None when `cmd` is not one of this module's sub-commands.
 pub fn dispatch(cmd: &str, a: &Args) -> Option<Result<()>> {
-    let _ = a;
     match cmd {
+        "replay-splitters" => Some(replay(a)),
+        "trace-splitters" => Some(if a.flag("big") { trace_big(a) } else { trace(a) }),
         _ => None,
     }
+}
+
+// ---------------------------------------------------------------------------------------------
+// driving the code under test
+// ---------------------------------------------------------------------------------------------
+
+/// ragc prints DEBUG lines on stderr from every call: send fd 2 to /dev/null for this process.
+fn quiet_stderr() {
+    unsafe {
+        let fd = libc::open(b"/dev/null\0".as_ptr() as *const libc::c_char, libc::O_WRONLY);
+        if fd >= 0 {
+            libc::dup2(fd, 2);
+            libc::close(fd);
+        }
+    }
+}
+
+struct Pools {
+    m: HashMap<usize, rayon::ThreadPool>,
+}
+impl Pools {
+    fn new() -> Self {
+        Pools { m: HashMap::new() }
+    }
+    fn get(&mut self, n: usize) -> &rayon::ThreadPool {
+        self.m.entry(n).or_insert_with(|| rayon::ThreadPoolBuilder::new().num_threads(n).build().expect("rayon pool"))
+    }
+}
+
+const LETTERS: &[u8; 16] = b"ACGTNRYSWKMBDHVU";
+fn letter(code: u8) -> u8 {
+    if (code as usize) < 16 {
+        LETTERS[code as usize]
+    } else {
+        b'X' // any letter outside the IUPAC table reads back as code 30
+    }
+}
+
+/// One FASTA record of the temporary file: sample index (1 = the reference sample) and contig.
+#[derive(Clone)]
+struct Rec {
+    s: usize,
+    c: Vec<u8>,
+}
+
+/// Write the records as a FASTA file; `pansn` decides the header style (sample#1#ctg / plain).
+fn write_fasta(path: &Path, recs: &[Rec], pansn: bool, width: usize) -> Result<()> {
+    let mut f = std::io::BufWriter::new(std::fs::File::create(path)?);
+    for (i, r) in recs.iter().enumerate() {
+        if pansn {
+            writeln!(f, ">smp{}#1#ctg{}", r.s, i + 1)?;
+        } else {
+            writeln!(f, ">ctg{}", i + 1)?;
+        }
+        let txt: Vec<u8> = r.c.iter().map(|&b| letter(b)).collect();
+        if width == 0 {
+            f.write_all(&txt)?;
+            f.write_all(b"\n")?;
+        } else {
+            for ch in txt.chunks(width) {
+                f.write_all(ch)?;
+                f.write_all(b"\n")?;
+            }
+        }
+    }
+    f.flush()?;
+    Ok(())
+}
+
+/// (splitters, singletons, duplicates) as sorted vectors, or the error / panic text.
+type Triple = (Vec<u64>, Vec<u64>, Vec<u64>);
+
+fn sorted<I: IntoIterator<Item = u64>>(it: I) -> Vec<u64> {
+    let mut v: Vec<u64> = it.into_iter().collect();
+    v.sort_unstable();
+    v
+}
+
+fn call_variant(pools: &mut Pools, variant: &str, threads: usize, recs: &[Rec], file: &Path, k: usize, seg: usize) -> std::result::Result<Triple, String> {
+    let pool = pools.get(threads);
+    match variant {
+        "mem" => {
+            let contigs: Vec<Vec<u8>> = recs.iter().map(|r| r.c.clone()).collect();
+            util::catch(std::panic::AssertUnwindSafe(|| pool.install(|| determine_splitters(&contigs, k, seg))))
+                .map(|(a, b, c)| (sorted(a), sorted(b), sorted(c)))
+        }
+        "stream" | "first" => {
+            let r = util::catch(std::panic::AssertUnwindSafe(|| {
+                pool.install(|| {
+                    if variant == "stream" {
+                        determine_splitters_streaming(file, k, seg)
+                    } else {
+                        determine_splitters_streaming_first_sample(file, k, seg)
+                    }
+                })
+            }));
+            match r {
+                Ok(Ok((a, b, c))) => Ok((sorted(a), sorted(b), sorted(c))),
+                Ok(Err(e)) => Err(format!("Err: {:#}", e)),
+                Err(p) => Err(format!("panic: {}", p)),
+            }
+        }
+        _ => Err("unknown variant".into()),
+    }
+}
+
+/// real segmentation of every contig with the given splitter set: segment lengths
+fn seg_lens(contigs: &[Vec<u8>], spl: &[u64], k: usize, seg: usize) -> std::result::Result<Vec<Vec<usize>>, String> {
+    let set: ahash::AHashSet<u64> = spl.iter().copied().collect();
+    util::catch(std::panic::AssertUnwindSafe(|| {
+        contigs.iter().map(|c| split_at_splitters_with_size(c, &set, k, seg).iter().map(|s| s.data.len()).collect()).collect()
+    }))
+}
+
+// ---------------------------------------------------------------------------------------------
+// projections
+// ---------------------------------------------------------------------------------------------
+fn proj_set(v: &[u64], k: usize) -> (Vec<Vec<u8>>, bool) {
+    let mut ok = true;
+    let out = v
+        .iter()
+        .map(|&x| {
+            let (s, z) = util::unpack(x, k as u32);
+            ok &= z;
+            s
+        })
+        .collect();
+    (out, ok)
+}
+
+fn digest(v: &[u64]) -> String {
+    let mut b = Vec::with_capacity(v.len() * 8);
+    for x in v {
+        b.extend_from_slice(&x.to_be_bytes());
+    }
+    util::sha256_hex(&b)
+}
+
+fn comp(b: u8) -> u8 {
+    if b < 4 {
+        3 - b
+    } else {
+        b
+    }
+}
+fn rc(c: &[u8]) -> Vec<u8> {
+    c.iter().rev().map(|&b| comp(b)).collect()
+}
+
+/// the variant of a reference: contig order `perm` (0-based indices into the original), RC mask
+/// indexed by ORIGINAL contig number
+fn variant_of(reference: &[Vec<u8>], perm: &[usize], mask: &[bool]) -> Vec<Vec<u8>> {
+    perm.iter().map(|&i| if mask[i] { rc(&reference[i]) } else { reference[i].clone() }).collect()
+}
+
+fn syms(v: &Value) -> Vec<u8> {
+    v.as_array().map(|a| a.iter().map(|x| x.as_u64().unwrap() as u8).collect()).unwrap_or_default()
+}
+fn symset(v: &Value) -> BTreeSet<Vec<u8>> {
+    v.as_array().map(|a| a.iter().map(syms).collect()).unwrap_or_default()
+}
+
+// ---------------------------------------------------------------------------------------------
+// one case = one reference with its calls; produces the trace events
+// ---------------------------------------------------------------------------------------------
+struct CallPlan {
+    variant: &'static str,
+    threads: usize,
+    extra: Vec<Rec>, // records of further samples appended to the file (first-sample variant only)
+    pansn: bool,
+    width: usize,
+}
+
+struct CaseOut {
+    events: Vec<Value>,
+    /// first result per input variant (index into `inputs`)
+    first: Vec<Option<Triple>>,
+    lens: Vec<Option<Vec<Vec<usize>>>>,
+    all: Vec<(usize, &'static str, usize, std::result::Result<Triple, String>)>,
+}
+
+#[allow(clippy::too_many_arguments)]
+fn run_case(
+    pools: &mut Pools,
+    tmp: &Path,
+    case: &Value,
+    reference: &[Vec<u8>],
+    k: usize,
+    seg: usize,
+    inputs: &[(Vec<usize>, Vec<bool>)],
+    plans: &dyn Fn(usize) -> Vec<CallPlan>,
+    big: bool,
+) -> Result<CaseOut> {
+    let mut ev: Vec<Value> = vec![];
+    if big {
+        ev.push(json!({"ev": "bstart", "case": case, "k": k, "seg": seg, "nctg": reference.len(),
+                        "total": reference.iter().map(|c| c.len()).sum::<usize>()}));
+    } else {
+        ev.push(json!({"ev": "start", "case": case, "k": k, "seg": seg, "ref": reference}));
+    }
+    let file = tmp.join("ref.fa");
+    let mut first: Vec<Option<Triple>> = vec![None; inputs.len()];
+    let mut lens_out: Vec<Option<Vec<Vec<usize>>>> = vec![None; inputs.len()];
+    let mut all = vec![];
+    for (ii, (perm, mask)) in inputs.iter().enumerate() {
+        let contigs = variant_of(reference, perm, mask);
+        let perm1: Vec<usize> = perm.iter().map(|x| x + 1).collect();
+        for p in plans(ii) {
+            let mut recs: Vec<Rec> = contigs.iter().map(|c| Rec { s: 1, c: c.clone() }).collect();
+            recs.extend(p.extra.iter().cloned());
+            if p.variant != "mem" {
+                write_fasta(&file, &recs, p.pansn, p.width)?;
+            }
+            let r = call_variant(pools, p.variant, p.threads, &recs, &file, k, seg);
+            let mut e = if big {
+                json!({"ev": "bcall", "variant": p.variant, "threads": p.threads, "key": ii + 1,
+                       "nextra": p.extra.len()})
+            } else {
+                json!({"ev": "call", "variant": p.variant, "threads": p.threads, "perm": perm1, "rc": mask,
+                       "file": recs.iter().map(|r| json!({"s": r.s, "c": r.c})).collect::<Vec<_>>()})
+            };
+            match &r {
+                Ok((spl, sing, dup)) => {
+                    if big {
+                        let su: BTreeSet<u64> = sing.iter().chain(dup.iter()).copied().collect();
+                        let ss: BTreeSet<u64> = sing.iter().chain(spl.iter()).copied().collect();
+                        e["spl_d"] = json!(digest(spl));
+                        e["sing_d"] = json!(digest(sing));
+                        e["dup_d"] = json!(digest(dup));
+                        e["n_spl"] = json!(spl.len());
+                        e["n_sing"] = json!(sing.len());
+                        e["n_dup"] = json!(dup.len());
+                        e["n_sing_u_dup"] = json!(su.len());
+                        e["n_spl_u_sing"] = json!(ss.len());
+                    } else {
+                        let (a, z1) = proj_set(spl, k);
+                        let (b, z2) = proj_set(sing, k);
+                        let (c, z3) = proj_set(dup, k);
+                        e["spl"] = json!(a);
+                        e["sing"] = json!(b);
+                        e["dup"] = json!(c);
+                        e["lowzero"] = json!(z1 && z2 && z3);
+                    }
+                    e["err"] = json!("");
+                    if first[ii].is_none() {
+                        first[ii] = Some((spl.clone(), sing.clone(), dup.clone()));
+                    }
+                }
+                Err(msg) => {
+                    if big {
+                        for f in ["spl_d", "sing_d", "dup_d"] {
+                            e[f] = json!("");
+                        }
+                        for f in ["n_spl", "n_sing", "n_dup", "n_sing_u_dup", "n_spl_u_sing"] {
+                            e[f] = json!(0);
+                        }
+                    } else {
+                        e["spl"] = json!([]);
+                        e["sing"] = json!([]);
+                        e["dup"] = json!([]);
+                        e["lowzero"] = json!(true);
+                    }
+                    e["err"] = json!(msg);
+                }
+            }
+            ev.push(e);
+            all.push((ii, p.variant, p.threads, r));
+        }
+        // the real segmentation of this input with the splitters the code returned for it
+        if let Some((spl, _, _)) = &first[ii] {
+            let l = seg_lens(&contigs, spl, k, seg);
+            let mut e = if big { json!({"ev": "bsegs", "key": ii + 1}) } else { json!({"ev": "segs", "perm": perm1, "rc": mask}) };
+            match l {
+                Ok(l) => {
+                    e["lens"] = json!(l);
+                    e["err"] = json!("");
+                    lens_out[ii] = Some(l);
+                }
+                Err(m) => {
+                    e["lens"] = json!([]);
+                    e["err"] = json!(m);
+                }
+            }
+            ev.push(e);
+        }
+    }
+    Ok(CaseOut { events: ev, first, lens: lens_out, all })
+}
+
+// ---------------------------------------------------------------------------------------------
+// REPLAY
+// ---------------------------------------------------------------------------------------------
+/// Every terminal state printed by MC_Splitters is executed on the real entry points (in-memory
+/// with 1, 2 and 4 rayon threads, streaming, first-sample); the projected real result is compared
+/// with the model's: `sing`/`dup` are the property's own definitions (mismatch = fail); the
+/// splitter set and the segment lengths are the model of the code's selection POLICY (mismatch =
+/// drift: the case's events are written to --trace-out and TLC decides the laws on them).
+pub fn replay(a: &Args) -> Result<()> {
+    util::install_panic_hook();
+    quiet_stderr();
+    let f = std::fs::File::open(a.get("in")?)?;
+    let tmpd = tempfile::tempdir()?;
+    let mut pools = Pools::new();
+    let mut tout = match a.opt("trace-out") {
+        Some(p) => Some(std::io::BufWriter::new(std::fs::File::create(p)?)),
+        None => None,
+    };
+    let (mut n, mut steps, mut ndrift, mut multi) = (0u64, 0u64, 0u64, 0u64);
+    let mut fails: Vec<Value> = vec![];
+    let mut drifts: Vec<Value> = vec![];
+    for line in std::io::BufReader::new(f).lines() {
+        let line = line?;
+        if line.trim().is_empty() {
+            continue;
+        }
+        let b: Value = serde_json::from_str(&line)?;
+        let k = b["k"].as_u64().unwrap() as usize;
+        let seg = b["seg"].as_u64().unwrap() as usize;
+        let reference: Vec<Vec<u8>> = b["ref"].as_array().ok_or_else(|| anyhow!("ref"))?.iter().map(syms).collect();
+        let m_sing = symset(&b["sing"]);
+        let m_dup = symset(&b["dup"]);
+        let m_used = symset(&b["used"]);
+        let m_lens: Vec<Vec<usize>> = b["lens"].as_array().map(|x| x.iter().map(|l| l.as_array().map(|y| y.iter().map(|z| z.as_u64().unwrap() as usize).collect()).unwrap_or_default()).collect()).unwrap_or_default();
+        n += 1;
+        let ident: Vec<(Vec<usize>, Vec<bool>)> = vec![((0..reference.len()).collect(), vec![false; reference.len()])];
+        let plans = |_ii: usize| -> Vec<CallPlan> {
+            vec![
+                CallPlan { variant: "mem", threads: 1, extra: vec![], pansn: true, width: 0 },
+                CallPlan { variant: "mem", threads: 2, extra: vec![], pansn: true, width: 0 },
+                CallPlan { variant: "mem", threads: 4, extra: vec![], pansn: true, width: 0 },
+                CallPlan { variant: "stream", threads: 1, extra: vec![], pansn: (n % 2) == 0, width: 0 },
+                CallPlan { variant: "first", threads: 2, extra: vec![], pansn: (n % 2) == 1, width: 0 },
+            ]
+        };
+        let out = run_case(&mut pools, tmpd.path(), &json!(n), &reference, k, seg, &ident, &plans, false)?;
+        steps += out.all.len() as u64;
+        let mut bad: BTreeSet<&'static str> = BTreeSet::new();
+        let mut drift: BTreeSet<&'static str> = BTreeSet::new();
+        let mut detail = vec![];
+        for (_, variant, threads, r) in &out.all {
+            match r {
+                Ok((spl, sing, dup)) => {
+                    let (ps, z1) = proj_set(spl, k);
+                    let (pg, z2) = proj_set(sing, k);
+                    let (pd, z3) = proj_set(dup, k);
+                    let ps: BTreeSet<Vec<u8>> = ps.into_iter().collect();
+                    let pg: BTreeSet<Vec<u8>> = pg.into_iter().collect();
+                    let pd: BTreeSet<Vec<u8>> = pd.into_iter().collect();
+                    if !(z1 && z2 && z3) {
+                        bad.insert("lowzero");
+                    }
+                    if pg != m_sing {
+                        bad.insert("sing");
+                        detail.push(json!({"variant": variant, "threads": threads, "real_sing": pg}));
+                    }
+                    if pd != m_dup {
+                        bad.insert("dup");
+                        detail.push(json!({"variant": variant, "threads": threads, "real_dup": pd}));
+                    }
+                    if ps != m_used {
+                        drift.insert("spl");
+                        detail.push(json!({"variant": variant, "threads": threads, "real_spl": ps}));
+                    }
+                }
+                Err(m) => {
+                    bad.insert("error");
+                    detail.push(json!({"variant": variant, "threads": threads, "error": m}));
+                }
+            }
+        }
+        match &out.lens[0] {
+            Some(l) => {
+                if *l != m_lens {
+                    drift.insert("lens");
+                    detail.push(json!({"real_lens": l}));
+                }
+                if l.iter().any(|x| x.len() >= 4) {
+                    multi += 1;
+                }
+            }
+            None => {
+                bad.insert("segmentation-error");
+            }
+        }
+        if !bad.is_empty() {
+            if fails.len() < 20 {
+                fails.push(json!({"fields": bad, "detail": detail, "behaviour": b}));
+            }
+        } else if !drift.is_empty() {
+            ndrift += 1;
+            if drifts.len() < 5 {
+                drifts.push(json!({"fields": drift, "detail": detail, "behaviour": b}));
+            }
+        }
+        if !bad.is_empty() || !drift.is_empty() {
+            if let Some(w) = tout.as_mut() {
+                for e in &out.events {
+                    writeln!(w, "{}", e)?;
+                }
+            }
+        }
+        if fails.len() >= 20 {
+            break;
+        }
+    }
+    if let Some(w) = tout.as_mut() {
+        w.flush()?;
+    }
+    println!("{}", json!({"behaviours": n, "steps": steps, "fails": fails, "drift": ndrift, "drift_samples": drifts,
+                           "with_interior_segments": multi}));
+    Ok(())
+}
+
+// ---------------------------------------------------------------------------------------------
+// random references
+// ---------------------------------------------------------------------------------------------
+struct GenRef {
+    contigs: Vec<Vec<u8>>,
+    k: usize,
+    seg: usize,
+    feat: Vec<&'static str>,
+}
+
+/// Seeded random reference with the features of the property's quantifier: N / IUPAC codes,
+/// repeats (direct and reverse-complemented), duplicated contigs, contigs shorter than k.
+fn gen_ref(rng: &mut StdRng, minlen: usize, maxlen: usize, big: bool) -> GenRef {
+    let total = rng.gen_range(minlen..=maxlen);
+    // small k makes duplicates by chance, large k only through planted repeats
+    let k: usize = if big {
+        match rng.gen_range(0..10) {
+            0..=5 => rng.gen_range(9..=15),
+            6..=8 => rng.gen_range(16..=31),
+            _ => 32,
+        }
+    } else {
+        match rng.gen_range(0..10) {
+            0..=3 => rng.gen_range(3..=6),
+            4..=6 => rng.gen_range(7..=15),
+            7..=8 => rng.gen_range(16..=31),
+            _ => 32,
+        }
+    };
+    let nctg = if big { rng.gen_range(1..=12) } else { rng.gen_range(1..=8) };
+    // mostly a segment size that gives the longer contigs several segments (the spacing law needs >= 4)
+    let per = (total / nctg.min(3)).max(12);
+    let seg: usize = if big {
+        if rng.gen_bool(0.8) { rng.gen_range(50..=(per / 8).max(60)) } else { rng.gen_range(500..=3000) }
+    } else if rng.gen_bool(0.8) {
+        rng.gen_range(5..=(per / 5).max(6))
+    } else {
+        rng.gen_range(41..=200)
+    };
+    let mut feat: Vec<&'static str> = vec![];
+    // split the total into nctg parts (some may be tiny)
+    let mut cuts: Vec<usize> = (0..nctg - 1).map(|_| rng.gen_range(1..total.max(2))).collect();
+    cuts.push(0);
+    cuts.push(total);
+    cuts.sort_unstable();
+    let mut lens: Vec<usize> = cuts.windows(2).map(|w| w[1] - w[0]).filter(|&l| l > 0).collect();
+    if lens.is_empty() {
+        lens.push(total.max(1));
+    }
+    let p_n: f64 = *[0.0, 0.0, 0.004, 0.02].choose(rng).unwrap();
+    let p_rep: f64 = *[0.0, 0.01, 0.03].choose(rng).unwrap();
+    let low_entropy = rng.gen_bool(0.15);
+    let mut contigs: Vec<Vec<u8>> = vec![];
+    for &l in &lens {
+        let mut c: Vec<u8> = Vec::with_capacity(l);
+        while c.len() < l {
+            let x: f64 = rng.gen();
+            if x < p_n {
+                // a run of one non-ACGT code (N mostly, other IUPAC codes and the unknown code 30 too)
+                let code: u8 = match rng.gen_range(0..6) {
+                    0..=3 => 4,
+                    4 => rng.gen_range(5..16),
+                    _ => 30,
+                };
+                let run = rng.gen_range(1..=if big { 40 } else { 6 });
+                for _ in 0..run {
+                    if c.len() < l {
+                        c.push(code);
+                    }
+                }
+                if !feat.contains(&"nonACGT") {
+                    feat.push("nonACGT");
+                }
+            } else if x < p_n + p_rep && (!c.is_empty() || !contigs.is_empty()) {
+                // copy a stretch seen before (this contig or an earlier one), possibly reverse-complemented
+                let src: &Vec<u8> = if !contigs.is_empty() && (c.is_empty() || rng.gen_bool(0.5)) { &contigs[rng.gen_range(0..contigs.len())] } else { &c };
+                let a = rng.gen_range(0..src.len());
+                let maxrep = if big { 400 } else { 3 * k + 10 };
+                let b = (a + rng.gen_range(1..=maxrep)).min(src.len());
+                let mut piece: Vec<u8> = src[a..b].to_vec();
+                if rng.gen_bool(0.5) {
+                    piece = rc(&piece);
+                    if !feat.contains(&"rc-repeat") {
+                        feat.push("rc-repeat");
+                    }
+                } else if !feat.contains(&"repeat") {
+                    feat.push("repeat");
+                }
+                for s in piece {
+                    if c.len() < l {
+                        c.push(s);
+                    }
+                }
+            } else if low_entropy {
+                c.push(*[0u8, 0, 0, 3, 1].choose(rng).unwrap());
+            } else {
+                c.push(rng.gen_range(0..4));
+            }
+        }
+        contigs.push(c);
+    }
+    // duplicated contig (exact or reverse-complemented copy)
+    if contigs.len() < 12 && rng.gen_bool(0.3) {
+        let i = rng.gen_range(0..contigs.len());
+        let d = if rng.gen_bool(0.5) { contigs[i].clone() } else { rc(&contigs[i]) };
+        let at = rng.gen_range(0..=contigs.len());
+        contigs.insert(at, d);
+        feat.push("dup-contig");
+    }
+    // a contig shorter than k
+    if rng.gen_bool(0.3) {
+        let l = rng.gen_range(1..k.max(2));
+        let c: Vec<u8> = (0..l).map(|_| rng.gen_range(0..4)).collect();
+        let at = rng.gen_range(0..=contigs.len());
+        contigs.insert(at, c);
+        feat.push("short-contig");
+    }
+    GenRef { contigs, k, seg, feat }
+}
+
+fn gen_extra(rng: &mut StdRng, reference: &[Vec<u8>], n: usize) -> Vec<Rec> {
+    // further samples after the reference sample: mutated copies and fresh contigs
+    let mut out = vec![];
+    let ns = rng.gen_range(1..=n);
+    for s in 0..ns {
+        let nc = rng.gen_range(1..=3);
+        for _ in 0..nc {
+            let c: Vec<u8> = if rng.gen_bool(0.6) {
+                let mut c = reference[rng.gen_range(0..reference.len())].clone();
+                for b in c.iter_mut() {
+                    if rng.gen_bool(0.05) {
+                        *b = rng.gen_range(0..4);
+                    }
+                }
+                c
+            } else {
+                (0..rng.gen_range(1..200)).map(|_| rng.gen_range(0..4)).collect()
+            };
+            out.push(Rec { s: s + 2, c });
+        }
+    }
+    out
+}
+
+fn gen_inputs(rng: &mut StdRng, n: usize, count: usize) -> Vec<(Vec<usize>, Vec<bool>)> {
+    let ident: Vec<usize> = (0..n).collect();
+    let mut v = vec![(ident.clone(), vec![false; n])];
+    // contig order only; reverse complement only; both
+    for i in 1..count {
+        let mut p = ident.clone();
+        if i % 2 == 1 || i >= 3 {
+            p.shuffle(rng);
+            if n > 1 && p == ident {
+                p.swap(0, n - 1);
+            }
+        }
+        let mut m = vec![false; n];
+        if i >= 2 {
+            for x in m.iter_mut() {
+                *x = rng.gen_bool(0.5);
+            }
+            if !m.iter().any(|&x| x) {
+                m[rng.gen_range(0..n)] = true;
+            }
+        }
+        v.push((p, m));
+    }
+    v
+}
+
+/// TRACE: random references, all three variants under several pool sizes, on the reference,
+/// a permutation, a reverse-complemented version and both; full result sets are logged.
+pub fn trace(a: &Args) -> Result<()> {
+    util::install_panic_hook();
+    quiet_stderr();
+    let seed: u64 = a.num("seed", 1u64);
+    let ncases: usize = a.num("ncases", 10);
+    let from: usize = a.num("from-case", 0);
+    let minlen: usize = a.num("minlen", 20);
+    let maxlen: usize = a.num("maxlen", 300);
+    let tmpd = tempfile::tempdir()?;
+    let mut pools = Pools::new();
+    let mut out = std::io::BufWriter::new(std::fs::File::create(a.get("out")?)?);
+    let mut summary = vec![];
+    for case in from..from + ncases {
+        // every case has its own generator: a case can be regenerated alone
+        let mut rng = util::rng(seed.wrapping_mul(0x9E37_79B9_7F4A_7C15) ^ (case as u64).wrapping_mul(0xD1B5_4A32_D192_ED03) ^ 0xC11);
+        let g = gen_ref(&mut rng, minlen, maxlen, false);
+        let inputs = gen_inputs(&mut rng, g.contigs.len(), 4);
+        let extra = gen_extra(&mut rng, &g.contigs, 2);
+        let tsel: Vec<usize> = vec![1, 2, 8];
+        let t_stream = *[1usize, 2, 8].choose(&mut rng).unwrap();
+        let t_first = *[1usize, 2, 8].choose(&mut rng).unwrap();
+        let w1 = *[0usize, 60, 7].choose(&mut rng).unwrap();
+        let plain = rng.gen_bool(0.3);
+        let plans = |ii: usize| -> Vec<CallPlan> {
+            let mut v = vec![];
+            // the reference itself is run under every pool size; the other inputs under two of them
+            for &t in tsel.iter() {
+                if ii == 0 || t != 2 {
+                    v.push(CallPlan { variant: "mem", threads: t, extra: vec![], pansn: true, width: 0 });
+                }
+            }
+            v.push(CallPlan { variant: "stream", threads: t_stream, extra: vec![], pansn: !plain, width: w1 });
+            v.push(CallPlan { variant: "first", threads: t_first, extra: vec![], pansn: !plain, width: w1 });
+            if ii % 2 == 0 {
+                v.push(CallPlan { variant: "first", threads: 1, extra: extra.clone(), pansn: true, width: 60 });
+            }
+            v
+        };
+        let o = run_case(&mut pools, tmpd.path(), &json!(case), &g.contigs, g.k, g.seg, &inputs, &plans, false)?;
+        for e in &o.events {
+            writeln!(out, "{}", e)?;
+        }
+        let nseg_max = o.lens.iter().flatten().flat_map(|l| l.iter().map(|x| x.len())).max().unwrap_or(0);
+        let (ns, ng, nd) = o.first[0].as_ref().map(|(a, b, c)| (a.len(), b.len(), c.len())).unwrap_or((0, 0, 0));
+        summary.push(json!({"case": case, "k": g.k, "seg": g.seg, "nctg": g.contigs.len(),
+            "total": g.contigs.iter().map(|c| c.len()).sum::<usize>(), "feat": g.feat,
+            "n_spl": ns, "n_sing": ng, "n_dup": nd, "max_segments": nseg_max, "calls": o.all.len()}));
+    }
+    out.flush()?;
+    println!("{}", json!({"cases": summary}));
+    Ok(())
+}
+
+/// TRACE (large references): digests and cardinalities only; the laws are still decided by TLC.
+pub fn trace_big(a: &Args) -> Result<()> {
+    util::install_panic_hook();
+    quiet_stderr();
+    let seed: u64 = a.num("seed", 1u64);
+    let ncases: usize = a.num("ncases", 3);
+    let from: usize = a.num("from-case", 0);
+    let minlen: usize = a.num("minlen", 5000);
+    let maxlen: usize = a.num("maxlen", 200000);
+    let tmpd = tempfile::tempdir()?;
+    let mut pools = Pools::new();
+    let mut out = std::io::BufWriter::new(std::fs::File::create(a.get("out")?)?);
+    let mut summary = vec![];
+    for case in from..from + ncases {
+        let mut rng = util::rng(seed.wrapping_mul(0x9E37_79B9_7F4A_7C15) ^ (case as u64).wrapping_mul(0xD1B5_4A32_D192_ED03) ^ 0xB16);
+        let g = gen_ref(&mut rng, minlen, maxlen, true);
+        let inputs = gen_inputs(&mut rng, g.contigs.len(), 4);
+        let extra = gen_extra(&mut rng, &g.contigs, 2);
+        let plans = |ii: usize| -> Vec<CallPlan> {
+            let mut v = vec![];
+            for t in [1usize, 2, 8, 16] {
+                if ii == 0 || t == 1 || t == 16 {
+                    v.push(CallPlan { variant: "mem", threads: t, extra: vec![], pansn: true, width: 0 });
+                }
+            }
+            v.push(CallPlan { variant: "stream", threads: 2, extra: vec![], pansn: ii % 2 == 0, width: 80 });
+            v.push(CallPlan { variant: "first", threads: 8, extra: vec![], pansn: ii % 2 == 1, width: 80 });
+            if ii == 0 {
+                v.push(CallPlan { variant: "first", threads: 1, extra: extra.clone(), pansn: true, width: 80 });
+            }
+            v
+        };
+        let o = run_case(&mut pools, tmpd.path(), &json!(case), &g.contigs, g.k, g.seg, &inputs, &plans, true)?;
+        for e in &o.events {
+            writeln!(out, "{}", e)?;
+        }
+        let nseg_max = o.lens.iter().flatten().flat_map(|l| l.iter().map(|x| x.len())).max().unwrap_or(0);
+        let (ns, ng, nd) = o.first[0].as_ref().map(|(a, b, c)| (a.len(), b.len(), c.len())).unwrap_or((0, 0, 0));
+        summary.push(json!({"case": case, "k": g.k, "seg": g.seg, "nctg": g.contigs.len(),
+            "total": g.contigs.iter().map(|c| c.len()).sum::<usize>(), "feat": g.feat,
+            "n_spl": ns, "n_sing": ng, "n_dup": nd, "max_segments": nseg_max, "calls": o.all.len()}));
+    }
+    out.flush()?;
+    println!("{}", json!({"cases": summary}));
+    Ok(())
 }
